@@ -18,6 +18,8 @@ SPEC = {
         gen('vh_c40', 'up_coin_grinder_is_optimal', 30000, 600000, workers_quick=4, rule='upstream fuzz target (supplementary)'),
         gen('vh_c40', 'up_coinselection_srd', 20000, 400000, workers_quick=4, rule='upstream fuzz target (supplementary)'),
         gen('vh_c40', 'up_coinselection_knapsack', 20000, 400000, workers_quick=4, rule='upstream fuzz target (supplementary)'),
+        gen('vh_c40', 'c40_bnb_literal', 0, 0, tiers=(), rule='replay-only: known finding (BnB complete search vs supersets at low feerate)'),
+        gen('vh_c40', 'c40_bnb_tie_literal', 0, 0, tiers=(), rule='replay-only: known finding (BnB clone skipping under a binding weight limit)'),
     ],
 }
 
